@@ -4,7 +4,7 @@
 usage: seedtest.py <PROP> <k> [--checks C05,C13] [--tier quick] [--from /tmp/wtout]
  1. in a scratch worktree of /repo HEAD (outside /repo and /verif): apply patch<k>.diff, run the
     unedited test suite (must be 278 passed), run demo<k>.py (must fail), revert, run demo (must pass)
- 2. apply the patch to /repo, run each check, undo it straight afterwards
+ 2. apply the patch to a second scratch worktree, run each check against it (MIASMX_REPO), remove it
  3. store patch/demo/meta under /verif/seeded/<PROP>-<k>/ with what was run and what was detected
 """
 import sys, os, json, subprocess, shutil, argparse, tempfile, time
@@ -39,7 +39,6 @@ if os.path.exists(os.path.join(out, 'meta.json')):
     res.update(json.load(open(os.path.join(out, 'meta.json'))))
 if os.path.exists(meta_in):
     res.update(json.load(open(meta_in)))
-assert sh('git -C /repo status --porcelain --untracked-files=no')[1].strip() == '', '/repo not clean'
 if not a.skip_confirm:
     wt = tempfile.mkdtemp(prefix='seedwt-', dir='/tmp')
     tmpd = wt + '.tmp'
@@ -81,23 +80,29 @@ open(os.path.join(out, 'patch.diff'), 'w').write(cur)
 shutil.copy(demo, os.path.join(out, 'demo.py'))
 det = {}
 if res.get('confirmed', True):
-    rc, o = sh('git -C /repo apply %s' % os.path.join(out, 'patch.diff'))
+    # the checks run against a scratch worktree with the change applied (MIASMX_REPO), so /repo itself is never
+    # modified and background runs that use /repo are not disturbed; same effect as git -C /repo apply / checkout
+    wt2 = tempfile.mkdtemp(prefix='seedrun-', dir='/tmp')
+    os.rmdir(wt2)
+    rc, o = sh('git -C /repo worktree add -q --detach %s HEAD' % wt2)
     assert rc == 0, o
     try:
+        rc, o = sh('git apply %s' % os.path.join(out, 'patch.diff'), cwd=wt2)
+        assert rc == 0, o
+        ev = tempfile.mkdtemp(prefix='seedev-', dir='/dev/shm')
         for c in checks:
             t0 = time.time()
-            rc, o = sh('./check %s --tier %s' % (c, a.tier), cwd='/verif', timeout=7200)
+            rc, o = sh('./check %s --tier %s' % (c, a.tier), cwd='/verif', timeout=7200, env={'MIASMX_REPO': wt2, 'VERIF_REPLAYS': ev, 'VERIF_EVIDENCE': ev})
             v = [l for l in o.splitlines() if l.startswith('VIOLATION')]
             sigs = [l.strip() for l in o.splitlines() if l.strip().startswith('signature:')]
             det[c] = {'rc': rc, 'violations': len(v), 'signatures': sigs[:6], 'wall_s': round(time.time() - t0, 1), 'tier': a.tier}
             print('check %s (%s): rc=%d violations=%d %.0fs %s' % (c, a.tier, rc, len(v), time.time() - t0, sigs[:2]))
             if rc not in (0, 1):
                 print(o[-1500:])
+        shutil.rmtree(ev, ignore_errors=True)
     finally:
-        sh('git -C /repo checkout -- .')
-        # evidence files were rewritten by runs on a patched tree: restore the committed ones
-        sh('git -C /verif checkout -- evidence 2>/dev/null')
-        shutil.rmtree('/verif/replays/' + P, ignore_errors=True)
+        sh('git -C /repo worktree remove --force %s' % wt2)
+        shutil.rmtree(wt2, ignore_errors=True)
 old = {}
 mp = os.path.join(out, 'meta.json')
 if os.path.exists(mp):
@@ -105,5 +110,5 @@ if os.path.exists(mp):
 old.update(det)
 res['detected_by'] = old
 res['what_was_run'] = ('scratch worktree of /repo HEAD: git apply; unedited pytest suite; demo.py with and without the patch; '
-                       'then git -C /repo apply, ./check <id>, git -C /repo checkout -- .')
+                       'then the same change in a second scratch worktree, MIASMX_REPO=<worktree> ./check <id>, worktree removed')
 json.dump(res, open(mp, 'w'), indent=1, sort_keys=True)
